@@ -1451,9 +1451,10 @@ class Component(composites.Composite, metaclass=ComponentType):
             # possible that there are no nuclides in this component yet. In that case,
             # defer to Material. Material.density is wrapped to warn if it's attached
             # to a parent. Avoid that by calling the inner function directly
-            density = self.material.density.__wrapped__(
-                self.material, Tc=self.temperatureInC
-            )
+            # (materials that override density(), e.g. fluids, are not wrapped)
+            densityFn = type(self.material).density
+            densityFn = getattr(densityFn, "__wrapped__", densityFn)
+            density = densityFn(self.material, Tc=self.temperatureInC)
 
         return density
 
